@@ -87,7 +87,7 @@ Definition dec_table : list (list nat -> option oop) :=
    with_sb OAdd; with_sb OSub; with_sb OMul; with_sb ODiv; with_sb OPow; no_sb OMax; no_sb OMin; no_sb OAnd; no_sb OOr; no_sb OXor;
    with_sb OBitAnd; with_sb OBitOr; with_sb OBitXor; with_sb OShl; with_sb OShr;
    no_sb OEqual; no_sb OLess; no_sb OLessEq; no_sb OGreater; no_sb OGreaterEq; no_sb OEqualB;
-   no_sb OSubF; no_sb OEqualF; no_sb OAddF; no_sb OMulF; no_sb OWhere; no_sb OWhereB].
+   no_sb OSubF; no_sb OEqualF; no_sb OAddF; no_sb OMulF; no_sb OWhere; no_sb OWhereB; no_sb ORelu; no_sb OClip].
 Definition enc_op (o : oop) : list nat :=
   match o with
   | ONeg sb => 0%nat :: enc_sb sb | OAbs sb => 1%nat :: enc_sb sb | OSign sb => 2%nat :: enc_sb sb | OBitNot sb => 3%nat :: enc_sb sb
@@ -100,6 +100,7 @@ Definition enc_op (o : oop) : list nat :=
   | OShl sb => 28%nat :: enc_sb sb | OShr sb => 29%nat :: enc_sb sb
   | OEqual => [30%nat] | OLess => [31%nat] | OLessEq => [32%nat] | OGreater => [33%nat] | OGreaterEq => [34%nat] | OEqualB => [35%nat]
   | OSubF => [36%nat] | OEqualF => [37%nat] | OAddF => [38%nat] | OMulF => [39%nat] | OWhere => [40%nat] | OWhereB => [41%nat]
+  | ORelu => [42%nat] | OClip => [43%nat]
   end.
 Definition dec_op (l : list nat) : option oop :=
   match l with tag :: rest => match nth_error dec_table tag with Some f => f rest | None => None end | [] => None end.
@@ -112,14 +113,14 @@ Definition oname (o : oop) : string :=
   | OPow _ => "Pow" | OMax => "Max" | OMin => "Min" | OAnd => "And" | OOr => "Or" | OXor => "Xor"
   | OBitAnd _ => "BitwiseAnd" | OBitOr _ => "BitwiseOr" | OBitXor _ => "BitwiseXor" | OShl _ | OShr _ => "BitShift"
   | OEqual | OEqualB | OEqualF => "Equal" | OLess => "Less" | OLessEq => "LessOrEqual" | OGreater => "Greater"
-  | OGreaterEq => "GreaterOrEqual" | OWhere | OWhereB => "Where"
+  | OGreaterEq => "GreaterOrEqual" | OWhere | OWhereB => "Where" | ORelu => "Relu" | OClip => "Clip"
   end.
 Local Close Scope string_scope.
 Definition oarity (o : oop) : nat :=
   match o with
   | ONeg _ | OAbs _ | OSign _ | OBitNot _ | ONot | OCast _ | OCastToBool | OCastOfBool _ | OCastFloat
-  | ORound | OFloor | OCeil | OAbsF | OSignF | OIdentity => 1%nat
-  | OWhere | OWhereB => 3%nat
+  | ORound | OFloor | OCeil | OAbsF | OSignF | OIdentity | ORelu => 1%nat
+  | OWhere | OWhereB | OClip => 3%nat
   | _ => 2%nat
   end.
 (* the element type recorded with the occurrence has a non-negative width *)
@@ -685,6 +686,10 @@ Section IntKernels.
   Definition ki_abs := K1 SZ SZ (ke_abs sb) (jax_abs sb) (fun x => is_signed sb && in_intb sb x).
   Definition ki_div := K2 SZ SZ SZ (ke_div sb) (jax_div sb) (fun x y => zin2 x y && div_domb sb x y).
   Definition ki_rem := K2 SZ SZ SZ (ke_rem sb) (jax_rem sb) (fun x y => zin2 x y && negb (y =? 0)).
+  Definition ki_floor_divide := K2 SZ SZ SZ (ke_floor_divide sb) (jax_floor_divide sb) (fun x y => zin2 x y && div_domb sb x y).
+  Definition ki_fmod := K2 SZ SZ SZ (ke_rem sb) (jax_fmod sb) (fun x y => zin2 x y && negb (y =? 0)).   (* jnp.fmod's plugin: no zero guard *)
+  Definition ki_clip_op := K3 SZ SZ SZ SZ ke_clip_op jax_clip tt3.
+  Definition ki_relu := K1 SZ SZ ke_relu jax_relu tt1.
   Definition ki_max := K2 SZ SZ SZ ke_max jax_max zin2.
   Definition ki_min := K2 SZ SZ SZ ke_min jax_min zin2.
   Definition ki_clamp := K3 SZ SZ SZ SZ ke_clamp_p (fun lo x hi => jax_clamp x lo hi) tt3.
@@ -711,7 +716,7 @@ Section IntKernels.
   Definition ki_from_bool := K1 SB SZ (ke_convert_of_bool sb) (jax_convert_of_bool sb) tt1.
 
   Hypothesis Hb : 0 < snd sb.
-  Ltac kok_tac := unfold ke_neg, ke_floor_divide, ke_shift_left, ke_shift_right_logical, ke_shift_right_arithmetic,
+  Ltac kok_tac := unfold ke_neg, ke_shift_left, ke_shift_right_logical, ke_shift_right_arithmetic,
                     ke_sra_signed, ke_sra_unsigned, ke_sra_mask, ke_rem, ke_rem_of, utwin;
                   repeat (cbn; try match goal with |- context [if is_signed ?s then _ else _] => destruct (is_signed s) end);
                   repeat split; auto; try lia.
@@ -749,6 +754,21 @@ Section IntKernels.
     apply (K2_ok SZ SZ SZ (ke_rem sb) (lowered_rem sb)); try kuses_tac; try root_tac; try solve [kok_tac].
     intros x y H. apply andb_prop in H as [H Hd]. apply negb_true_iff in Hd. zin_tac H. apply rem_correct; auto. lia.
   Qed.
+  Lemma ki_floor_divide_ok : kern_ok ki_floor_divide.
+  Proof.
+    apply (K2_ok SZ SZ SZ (ke_floor_divide sb) (lowered_floor_divide sb)); try kuses_tac; try root_tac; try solve [kok_tac]; try reflexivity.
+    intros x y H. apply andb_prop in H as [H Hd]. apply div_domb_spec in Hd. zin_tac H. now apply floor_divide_correct.
+  Qed.
+  Lemma ki_fmod_ok : kern_ok ki_fmod.
+  Proof.
+    apply (K2_ok SZ SZ SZ (ke_rem sb) (lowered_rem sb)); try kuses_tac; try root_tac; try solve [kok_tac]; try reflexivity.
+    intros x y H. apply andb_prop in H as [H Hd]. apply negb_true_iff in Hd. zin_tac H. unfold jax_fmod. rewrite Hd.
+    apply rem_correct; auto. lia.
+  Qed.
+  Lemma ki_clip_op_ok : kern_ok ki_clip_op.
+  Proof. apply (K3_ok SZ SZ SZ SZ ke_clip_op lowered_clip_op); try kuses_tac; try root_tac; try solve [kok_tac]; try reflexivity; try (intros; apply clip_op_correct). Qed.
+  Lemma ki_relu_ok : kern_ok ki_relu.
+  Proof. apply (K1_ok SZ SZ ke_relu lowered_relu); try kuses_tac; try root_tac; try solve [kok_tac]; try reflexivity; try (intros; apply relu_correct). Qed.
   Lemma ki_max_ok : kern_ok ki_max. Proof. apply (K2_ok SZ SZ SZ ke_max lowered_max); try kuses_tac; try root_tac; try solve [kok_tac]; try reflexivity; try (intros; apply max_correct). Qed.
   Lemma ki_min_ok : kern_ok ki_min. Proof. apply (K2_ok SZ SZ SZ ke_min lowered_min); try kuses_tac; try root_tac; try solve [kok_tac]; try reflexivity; try (intros; apply min_correct). Qed.
   Lemma ki_clamp_ok : kern_ok ki_clamp.
@@ -864,7 +884,8 @@ Local Open Scope string_scope.
 Definition int_entries (nm : string) (sb : ity) : list (string * kern) :=
   [("add:" ++ nm, ki_add sb); ("sub:" ++ nm, ki_sub sb); ("mul:" ++ nm, ki_mul sb); ("neg:" ++ nm, ki_neg sb);
    ("sign:" ++ nm, ki_sign sb); ("div:" ++ nm, ki_div sb); ("rem:" ++ nm, ki_rem sb); ("max:" ++ nm, ki_max sb);
-   ("min:" ++ nm, ki_min sb); ("clamp:" ++ nm, ki_clamp); ("clip:" ++ nm, ki_clip); ("select_n:" ++ nm, ki_select_n);
+   ("min:" ++ nm, ki_min sb); ("floor_divide:" ++ nm, ki_floor_divide sb); ("fmod:" ++ nm, ki_fmod sb);
+   ("clip_op:" ++ nm, ki_clip_op); ("relu:" ++ nm, ki_relu); ("clamp:" ++ nm, ki_clamp); ("clip:" ++ nm, ki_clip); ("select_n:" ++ nm, ki_select_n);
    ("where:" ++ nm, ki_where); ("and:" ++ nm, ki_and sb); ("or:" ++ nm, ki_or sb); ("xor:" ++ nm, ki_xor sb);
    ("not:" ++ nm, ki_not sb); ("shift_left:" ++ nm, ki_shl sb); ("shift_right_logical:" ++ nm, ki_srl sb);
    ("shift_right_arithmetic:" ++ nm, ki_sra sb); ("eq:" ++ nm, ki_eq); ("ne:" ++ nm, ki_ne); ("lt:" ++ nm, ki_lt);
@@ -899,7 +920,7 @@ Lemma int_entries_ok nm sb : 0 < snd sb -> Forall kern_ok (map snd (int_entries 
 Proof.
   intro Hb. unfold int_entries. cbn [map snd].
   repeat (constructor; [first [ apply ki_add_ok | apply ki_sub_ok | apply ki_mul_ok | apply ki_neg_ok | apply ki_sign_ok
-    | apply ki_div_ok | apply ki_rem_ok | apply ki_max_ok | apply ki_min_ok | apply ki_clamp_ok | apply ki_clip_ok
+    | apply ki_div_ok | apply ki_rem_ok | apply ki_floor_divide_ok | apply ki_fmod_ok | apply ki_clip_op_ok | apply ki_relu_ok | apply ki_max_ok | apply ki_min_ok | apply ki_clamp_ok | apply ki_clip_ok
     | apply ki_select_n_ok | apply ki_where_ok | apply ki_and_ok | apply ki_or_ok | apply ki_xor_ok | apply ki_not_ok
     | apply ki_shl_ok | apply ki_srl_ok | apply ki_sra_ok | apply ki_eq_ok | apply ki_ne_ok | apply ki_lt_ok | apply ki_le_ok
     | apply ki_gt_ok | apply ki_ge_ok | apply ki_ipow_ok | apply ki_convert_to_ok | apply ki_to_bool_ok | apply ki_from_bool_ok ];
